@@ -7,6 +7,8 @@ from propchecks.relprops import rel_batch
 
 QALPHA = ['a', 'b', "'", '"', '\\', ' ', '$', '`']
 SALPHA = ['a', 'b', "'", '"', '\\', ' ']
+# words around ${...}: quotes and braces inside and after a parameter expansion
+PALPHA = ['${a', '}', "'", '"', '\\', 'b', ':-', '$c']
 CONTEXTS = ['%s', 'c %s', 'v=%s', 'c >%s', 'for i in %s; do c; done', 'case %s in x) c;; esac', 'case x in %s) c;; esac', 'c <<<%s', 'c x%sy']
 
 def run(ctx):
@@ -16,6 +18,8 @@ def run(ctx):
     wl = 4 if quick else 5
     words = [''.join(t) for n in range(1, wl + 1) for t in itertools.product(QALPHA, repeat=n)]
     rng = random.Random(seed + 6)
+    pwords = [''.join(t) for n in range(2, (4 if quick else 5) + 1) for t in itertools.product(PALPHA, repeat=n) if '${a' in t]
+    words = words + (rng.sample(pwords, 1500) if quick else pwords)
     inputs = common.finding_witnesses(findings) + common.corpus_inputs()
     for w in words:
         if ' ' in w.replace("' '", '').replace('" "', '') and rng.random() < 0.7: continue     # mostly single words
